@@ -426,10 +426,10 @@ func (c *Ctx) c01Sibling(fo *FO) {
 			}
 		}
 		// R01.5: shape of each release
-		c.checkReleaseShape(fo, p, p.Events, p.Events, ls, cl, cons)
+		c.checkReleaseShape(fo, p, p.Events, p.Events, ls, cl, cons, false)
 		for _, g := range gos {
 			for _, sp := range g.Sub {
-				c.checkReleaseShape(fo, p, sp.Events, append(append([]*pw.Event{}, p.Events...), sp.Events...), Locksets(sp.Events, nil), cl, cons)
+				c.checkReleaseShape(fo, p, sp.Events, append(append([]*pw.Event{}, p.Events...), sp.Events...), Locksets(sp.Events, nil), cl, cons, true)
 			}
 		}
 	}
@@ -459,7 +459,7 @@ func hasViolation(obls []*coreObl, rule, cons string) bool {
 	return false
 }
 
-func (c *Ctx) checkReleaseShape(fo *FO, p *pw.Path, evs, all []*pw.Event, ls []Held, cl *foClass, cons string) {
+func (c *Ctx) checkReleaseShape(fo *FO, p *pw.Path, evs, all []*pw.Event, ls []Held, cl *foClass, cons string, spawned bool) {
 	r := c.R
 	for i, ev := range evs {
 		if !isRelease(ev) {
@@ -472,6 +472,9 @@ func (c *Ctx) checkReleaseShape(fo *FO, p *pw.Path, evs, all []*pw.Event, ls []H
 		if !stringOfContent(all, ev.Key, fo.Key) {
 			d, t := c.pathDetail(fo, p, "key lock release is not keyed by string(key)")
 			r.Bad("R01.5", cons, "release-key", c.Pos(ev.Pos), d, t)
+		} else if spawned && (ev.Key.Src == nil || !isFreshCopyOf(all, ev.Key.Src, fo.Key)) {
+			d, t := c.pathDetail(fo, p, "the background goroutine computes the key of the entry to release from the caller's key slice, which the caller may have rewritten: it can delete another key's lock (a second owner is then elected while that key's build is still running)")
+			r.Bad("R01.5", cons, "bg-release-key-from-caller-slice", c.Pos(ev.Pos), d, t)
 		}
 		// paired close of this path's own channel in the same critical section
 		paired := false
